@@ -116,8 +116,11 @@ class Diverged(Exception):
 
 
 class Controller:
-    def __init__(self, decisions, msgs):
+    def __init__(self, decisions, msgs, opts=None):
         self.decisions = [tuple(d) for d in decisions]
+        # scenario option: every suspension request brings its own condition (released by 'release#k' decisions)
+        self.independent = str((opts or {}).get("independent_conditions", "False")) == "True"
+        self.releases = []
         self.pos = 0
         self.diverged = None
         self.loop = StepLoop()
@@ -145,7 +148,8 @@ class Controller:
         self.errors = {}
         self.nresp = 0
         self.c04_expected, self.c04_rewindable, self.c04_nr, self.c04_bad = [], True, False, []
-        self.aux_msgs = set()
+        self.aux_msgs = {}                 # id(message of a suspender's pre / post plan) -> 'pre<n>' / 'post<n>'
+        self.aux_names = {}                # id(post-plan generator) -> 'post<n>'
         self.after_start_suspender = False
         self.mot_calls = []
         self.c11_stop_bad = []
@@ -196,12 +200,18 @@ class Controller:
                 self.c11_stop_bad.append("the motor was set but not told to stop when the suspension started")
         if msg.command == "_start_suspender":
             self.after_start_suspender = True
+            # which condition this suspension waits for (the bound `wait` of one of the events handed to request_suspend)
+            cond = getattr(msg.args[3], "__self__", None) if len(msg.args) > 3 else None
+            post = msg.args[1] if len(msg.args) > 1 else None
+            for k, r in enumerate(self.releases):
+                if r is cond:
+                    self.trace.append(("in-effect", k, self.aux_names.get(id(post))))
         self.c04_update(msg)
         replayed = id(msg) in self.seen_msgs
         self.seen_msgs.add(id(msg))
         self.keep = getattr(self, "keep", [])
         self.keep.append(msg)
-        self.trace.append(("msg", msg.command, replayed, id(msg) in self.aux_msgs))
+        self.trace.append(("msg", msg.command, replayed, self.aux_msgs.get(id(msg), False)))
         if msg.command == "clear_checkpoint":
             self.section_nr = True
         elif msg.command == "checkpoint":
@@ -305,6 +315,12 @@ class Controller:
                 self.env_action(kind)
 
     def default_progress(self):
+        for k, r in enumerate(self.releases):
+            if not r.is_set() and not getattr(r, "fired", False):
+                r.fired = True
+                self.trace.append(("released", k))
+                self.loop.call_soon_threadsafe(r.set)
+                return True
         if self.release is not None and not self.release.is_set():
             self.loop.call_soon_threadsafe(self.release.set)
             return True
@@ -332,13 +348,16 @@ class Controller:
         elif kind == "pause_defer":
             in_thread(lambda: RE.request_pause(True))
         elif kind == "suspend":
-            if self.release is None or self.release.is_set():
+            if self.release is None or self.release.is_set() or self.independent:
                 self.release = asyncio.Event()
+                self.releases.append(self.release)
             rel = self.release
             if self.suspend_plans:
                 n = self.n_susp
                 self.n_susp += 1
                 pre, post = self.aux_plan(f"pre{n}"), self.aux_plan(f"post{n}")
+                self.aux_names[id(post)] = f"post{n}"
+                self.keep_aux_plans = getattr(self, "keep_aux_plans", []) + [pre, post]
                 in_thread(lambda: RE.request_suspend(rel.wait, pre_plan=pre, post_plan=post, justification="beam dump"))
             else:
                 in_thread(lambda: RE.request_suspend(rel.wait))
@@ -357,8 +376,11 @@ class Controller:
                     break
         elif kind == "timer":
             loop.fire_timer()
-        elif kind == "release":
-            loop.call_soon_threadsafe(self.release.set)
+        elif kind == "release" or kind.startswith("release#"):
+            r = self.releases[int(kind.split("#")[1])] if "#" in kind else self.release
+            r.fired = True
+            self.trace.append(("released", next((k for k, x in enumerate(self.releases) if x is r), None)))
+            loop.call_soon_threadsafe(r.set)
         else:
             raise RuntimeError(f"unknown environment decision {kind}")
 
@@ -378,7 +400,7 @@ class Controller:
                 self.trace.append(("aux-done", prefix))
                 return
             m = MESSAGES[choice]()
-            self.aux_msgs.add(id(m))
+            self.aux_msgs[id(m)] = prefix
             self.keep_aux = getattr(self, "keep_aux", []) + [m]
             yield m
 
@@ -585,11 +607,11 @@ def install_shim(ctl):
     bre.threading = shim
 
 
-def run_native(decisions, msgs):
+def run_native(decisions, msgs, opts=None):
     del LEDGER[:]
     del _SIG.cbs[:]
     """-> dict(calls=[(name, outcome, state after, ...)], docs=[...], diverged=..., log=[...])"""
-    ctl = Controller(decisions, msgs)
+    ctl = Controller(decisions, msgs, opts)
     install_shim(ctl)
     ctl.main_thread = threading.Thread(target=ctl.main, daemon=True)
     ctl.main_thread.start()
@@ -792,35 +814,62 @@ def _violations(obligation, res):
     elif "_start_suspender#ensures" in art_obligation or "request_suspend#ensures" in art_obligation or "while the plan is suspended" in tag:
         only_susp = not any(x[0] == "request" and x[1] in ("pause", "pause_defer", "abort", "stop", "halt") for x in res["log"]) and \
             not any(c["call"] in ("abort", "stop", "halt") for c in res["calls"])
-        phase, released, post_done = None, False, {}
-        n_started = -1
+        # (mirror of contracts/run_mon3.py C11) one record per suspension in effect: [condition index, post-plan name, 'started' | 'released'],
+        # in the order their _start_suspender was executed; the innermost one still waiting resumes first
+        phase, released, post_done, records = None, set(), {}, []
         for x in tr:
             if x[0] == "state" and x[1] == "suspending" and phase is None:
                 phase = "requested"
             elif x[0] == "aux-done":
                 post_done[x[1]] = True
+            elif x[0] == "released":
+                released.add(x[1])
+            elif x[0] == "in-effect" and phase is not None:
+                records.append([x[1], x[2] if len(x) > 2 else None, "started"])
             elif x[0] == "msg":
                 cmd, aux = x[1], (x[3] if len(x) > 3 else False)
                 if phase == "requested":
                     if cmd != "_start_suspender" and only_susp and tag.startswith("ensures[once a suspension has taken effect"):
                         bad.append(f"after the suspension took effect the next message executed was {cmd!r}")
                     if cmd == "_start_suspender":
-                        phase, n_started = "started", n_started + 1
-                elif phase == "started":
+                        phase = "started"
+                elif phase in ("started", "released"):
                     if cmd == "_start_suspender":
-                        n_started += 1
+                        phase = "started"
                     elif cmd == "_resume_from_suspender":
-                        rel = any(y[0] == "request" and y[1] == "release" for y in res["log"])
-                        if not rel and only_susp and tag.startswith("ensures[the plan stays held"):
-                            bad.append("the plan went on although the suspender's condition was never released")
-                        phase = "released"
-                    elif not (cmd in ("rewindable", "wait_for") or aux) and only_susp and tag.startswith("ensures[while suspended only"):
-                        bad.append(f"message {cmd!r} was executed while the plan was suspended")
-                elif phase == "released":
-                    if not (cmd in ("rewindable", "_start_suspender") or aux):
-                        if res.get("suspend_plans") and not post_done.get(f"post{n_started}") and only_susp and tag.startswith("ensures[after the release the post-plan"):
-                            bad.append(f"message {cmd!r} was executed after the release before the post-plan had finished")
-                        phase = None
+                        waiting = [r for r in records if r[2] == "started"]
+                        if waiting:
+                            r = waiting[-1]
+                            if r[0] not in released and only_susp and tag.startswith("ensures[the plan stays held"):
+                                bad.append(f"the helper plan of suspension {r[0]} went on to '_resume_from_suspender' although its condition was not released")
+                            r[2] = "released"
+                        phase = "started" if any(r[2] == "started" for r in records) else "released"
+                    elif isinstance(aux, str) and aux.startswith("post"):
+                        r = next((r for r in records if r[1] == aux), None)
+                        if r is not None and r[0] not in released and only_susp and tag.startswith("ensures[while suspended only"):
+                            bad.append(f"a message of post-plan {aux} was executed before its suspension was released")
+                    elif cmd == "wait_for" and not aux:
+                        waiting = [r for r in records if r[2] == "started"]
+                        if waiting and waiting[-1][1] and res.get("suspend_plans") and only_susp and tag.startswith("ensures[the suspender's pre-plan has run"):
+                            pre = "pre" + waiting[-1][1][len("post"):]
+                            if not post_done.get(pre):
+                                bad.append(f"the engine started to wait for the condition before pre-plan {pre} had finished")
+                    elif cmd == "rewindable" or aux:
+                        pass
+                    else:
+                        # a message of the plan, or a replayed one
+                        if only_susp:
+                            if any(r[2] == "started" for r in records) and tag.startswith("ensures[while suspended only"):
+                                bad.append(f"message {cmd!r} was executed while the plan was suspended")
+                            held = [r[0] for r in records if r[0] not in released]
+                            if held and tag.startswith("ensures[overlapping suspensions"):
+                                bad.append(f"message {cmd!r} ({'replayed' if x[2] else 'of the plan'}) was executed while the condition of suspension(s) {held} "
+                                           f"(of {[r[0] for r in records]} in effect) was not released")
+                            if all(r[2] == "released" for r in records) and tag.startswith("ensures[after the release the post-plan"):
+                                late = [r[1] for r in records if r[1] is not None and not post_done.get(r[1])]
+                                if late:
+                                    bad.append(f"message {cmd!r} was executed after the release before the post-plan(s) {late} had finished")
+                        phase, records = None, []
         if tag.startswith("ensures[at suspension every device that was moved"):
             bad.extend(res.get("c11_stop_bad", []))
     elif tag.startswith("ensures[at idle every"):
@@ -864,7 +913,7 @@ def _violations(obligation, res):
 def replay(model, info, art):
     decisions = art.get("decisions") or []
     msgs = (info.get("scenario") or {}).get("msgs") or list(MESSAGES)
-    res = run_native(decisions, msgs)
+    res = run_native(decisions, msgs, (info.get("scenario") or {}).get("opts"))
     res["failed_pause"] = any(x[0] == "plan-throw" and x[2] == "FailedPause" for x in res["log"])
     obligation = art.get("obligation", "")
     if obligation.startswith("known-"):
